@@ -221,4 +221,65 @@ theorem rebase_sound_complete (pre M M' post : List UInt8) (ex : List HashRange)
     have h2 : cov ⟨pre.length, M.length, none⟩ (pre.length + M.length + k) = false := by simp [cov]
     rw [h1, h2]
 
+/-! ### the re-based list in closed form; it stays marker-free and inside the grown asset -/
+
+theorem mem_setAt (rg : HashRange) : ∀ (i : Nat) (l : List HashRange) (r : HashRange),
+    r ∈ setAt rg i l → r = rg ∨ r ∈ l
+  | _, [], r, h => by simp [setAt] at h
+  | 0, x :: xs, r, h => by
+    simp only [setAt, List.mem_cons] at h
+    rcases h with h | h
+    · exact Or.inl h
+    · exact Or.inr (List.mem_cons_of_mem _ h)
+  | n + 1, x :: xs, r, h => by
+    simp only [setAt, List.mem_cons] at h
+    rcases h with h | h
+    · exact Or.inr (by simp [h])
+    · rcases mem_setAt rg n xs r h with h | h
+      · exact Or.inl h
+      · exact Or.inr (List.mem_cons_of_mem _ h)
+
+/-- closed form of the re-basing when the store range is found at a non-zero offset and the
+shifted starts fit `u64` -/
+theorem rebase_explicit (p m m' : Nat) (ex : List HashRange) (hpre : 0 < p) (i : Nat)
+    (hfind : findStart p ex = some i) (hi : ex[i]? = some ⟨p, m, none⟩)
+    (hfit : ∀ r ∈ ex, r.start + (m' - m) ≤ u64Max) :
+    rebase ex (some ⟨p, m', none⟩) =
+      some ((setAt ⟨p, m', none⟩ i ex).map (shiftOne p (m' - m))) := by
+  unfold rebase
+  simp only [hfind, hi, Option.map_some, Option.getD_some]
+  rw [if_pos hpre]
+  apply shiftAfter_eq
+  intro r hr hgt
+  rcases mem_setAt _ i ex r hr with h | h
+  · subst h; simp at hgt
+  · exact hfit r h
+
+theorem rebased_plain (p m' adj : Nat) (i : Nat) (ex : List HashRange) (hp : Plain ex) :
+    Plain ((setAt ⟨p, m', none⟩ i ex).map (shiftOne p adj)) := by
+  intro r hr
+  obtain ⟨r0, hr0, rfl⟩ := List.mem_map.1 hr
+  have hoff : (shiftOne p adj r0).off = r0.off := by unfold shiftOne; split <;> rfl
+  rw [hoff]
+  rcases mem_setAt _ i ex r0 hr0 with h | h
+  · subst h; rfl
+  · exact hp r0 h
+
+theorem rebased_within (p m m' n : Nat) (i : Nat) (ex : List HashRange) (hm : m ≤ m')
+    (hin : (⟨p, m, none⟩ : HashRange) ∈ ex) (hw : Within ex n) :
+    Within ((setAt ⟨p, m', none⟩ i ex).map (shiftOne p (m' - m))) (n + (m' - m)) := by
+  intro r hr
+  obtain ⟨r0, hr0, rfl⟩ := List.mem_map.1 hr
+  have hst := hw _ hin
+  simp only at hst
+  rcases mem_setAt _ i ex r0 hr0 with h | h
+  · subst h
+    simp only [shiftOne, Nat.lt_irrefl, gt_iff_lt, if_false]
+    omega
+  · have := hw r0 h
+    unfold shiftOne
+    split
+    · simp only; omega
+    · omega
+
 end C2pa.C01
